@@ -522,6 +522,12 @@ class Machine(RuleBasedStateMachine):
                     return None
                 out.append(stored)
             return out
+        def over_cap(n):
+            # open finding P6b (reproduced separately): an array bound to a sizer is not grown beyond the sizer's range
+            if m.kind != EXTARR or 'ext_array_beyond_sizer_range' not in self.opts.avoid:
+                return False
+            sm_ = next(x for x in t.members if x.name == m.sizer)
+            return n > NUMERIC[self.schema.resolve(sm_.type)][4]
         if m.kind == FIXARR:
             op = data.draw(st.sampled_from(['setitem', 'setslice', 'setslice_from_array']), label='array op')
         else:
@@ -595,6 +601,8 @@ class Machine(RuleBasedStateMachine):
                 ok = stored is not None and len(vals) == cur
             else:
                 ok = stored is not None and (limit is None or len(lst) + len(vals) - cur <= limit)
+                if ok and over_cap(len(lst) + len(vals) - cur):
+                    return
             self.structural()
             self.apply('%s[%r:%r:%r] = %r' % (where, sl.start, sl.stop, sl.step, vals),
                        lambda: arr.__setitem__(sl, vals),
@@ -603,6 +611,8 @@ class Machine(RuleBasedStateMachine):
             v = data.draw(scalar_args(self.ctx, m.type), label='value')
             ok, stored = self.ctx.check_scalar(m.type, v)
             full = limit is not None and len(lst) >= limit
+            if ok and over_cap(len(lst) + 1):
+                return
             self.mutations += 1
             self.apply('%s.append(%r)' % (where, v), lambda: arr.append(v), lambda: lst.append(stored),
                        'ok' if (ok and not full) else 'reject')
@@ -611,6 +621,8 @@ class Machine(RuleBasedStateMachine):
             v = data.draw(scalar_args(self.ctx, m.type), label='value')
             ok, stored = self.ctx.check_scalar(m.type, v)
             full = limit is not None and len(lst) >= limit
+            if ok and over_cap(len(lst) + 1):
+                return
             self.structural()
             self.apply('%s.insert(%d, %r)' % (where, i, v), lambda: arr.insert(i, v), lambda: lst.insert(i, stored),
                        'ok' if (ok and not full) else 'reject')
@@ -618,6 +630,8 @@ class Machine(RuleBasedStateMachine):
             vals = data.draw(evals, label='values')
             stored = checked(vals)
             ok = stored is not None and (limit is None or len(lst) + len(vals) <= limit)
+            if ok and over_cap(len(lst) + len(vals)):
+                return
             arg = {'extend': lambda: list(vals), 'extend_tuple': lambda: tuple(vals),
                    'extend_gen': lambda: (x for x in vals)}[op]
             self.structural()
